@@ -51,6 +51,20 @@ def lower(v, memo=None):
                            lower(v.fields.get('sent', SList()), memo))
             memo[v.oid] = r
             return r
+        if v.kind == 'queue':
+            from .ext import FakeQueue
+            r = FakeQueue(lower(v.fields.get('out', SList()), memo),
+                          lower(v.fields.get('gets', SList()), memo))
+            memo[v.oid] = r
+            return r
+        if v.kind == 'event':
+            from .ext import FakeEvent
+            r = FakeEvent()
+            memo[v.oid] = r
+            return r
+        if v.kind in ('boardlist', 'ssocket'):
+            memo[v.oid] = None
+            return None
         if v.kind == 'file':
             from .ext import FakeFile
             r = FakeFile(lower(v.fields.get('out', SList()), memo))
@@ -251,7 +265,9 @@ def native_check(c, registry, args):
         outcome = 'return'
     except BaseException as e:  # noqa
         outcome = e
-    from .ext import NonTermination
+    from .ext import NonTermination, ReplaySkip
+    if isinstance(outcome, ReplaySkip):
+        return None, {'skipped': str(outcome)}
     if isinstance(outcome, NonTermination):
         info['outcome'] = f'does not terminate: {outcome}'
         return [(f'{short}/loop0.variant', f'the call does not terminate: {outcome}')], info
